@@ -275,6 +275,8 @@ class Env:
 
     def note(self, text):
         self.notes.append(text)
+        if text not in self.ex.notes:
+            self.ex.notes.append(text)
 
     def prove(self, label, cond, detail=None):
         """obligation: on this path, cond holds for every value of the inputs"""
@@ -454,6 +456,7 @@ class Explorer:
         self.error = None
         self.samples = []
         self.ignore_label = None
+        self.notes = []
         self.initial_queue = initial_queue
         self.slice_paths = slice_paths
         self.sliced = False
